@@ -38,7 +38,7 @@ def check_c03(tier, replay=None):
     maxlen = 3 if tier == 'quick' else 5
     res = run_shards('StoneTok',
                      lambda s: dict(spec='Spec', constants={'Shard': s, 'NShards': 16, 'EmitVectors': True, 'Mode': '"strings"',
-                                                            'MaxLen': maxlen, 'MaxEdits': 0},
+                                                            'MaxLen': maxlen, 'MaxEdits': 0, 'Stride': 1, 'Phase': 0},
                                     invariants=['TypeOK'], constraints=['Emit', 'InShard']),
                      list(range(16)), 'lexcheck.TextJudge', {}, tlc_kwargs={'timeout': 6000})
     agg = merge(res)
@@ -46,22 +46,22 @@ def check_c03(tier, replay=None):
     rep.add_judged(agg)
     res = run_shards('StoneTok',
                      lambda s: dict(spec='Spec', constants={'Shard': s, 'NShards': 16, 'EmitVectors': True, 'Mode': '"edits"',
-                                                            'MaxLen': 0, 'MaxEdits': 1},
+                                                            'MaxLen': 0, 'MaxEdits': 1, 'Stride': 1, 'Phase': 0},
                                     invariants=['TypeOK'], constraints=['Emit', 'InShard']),
                      list(range(16)), 'lexcheck.TextJudge', {}, tlc_kwargs={'timeout': 6000})
     agg = merge(res)
     rep.add_tlc('StoneTok/edits', agg, {'MaxEdits': 1, 'seeds': 4, 'pool': 41})
     rep.add_judged(agg)
     if tier == 'thorough':
-        # two- and three-edit mutants: random behaviours of the same edit machine, 16 simulation runs with different seeds
+        # two- and three-edit mutants: at every step a slice (1/160) of the edits, a different slice in each of 16 runs
         res = run_shards('StoneTok',
                          lambda s: dict(spec='Spec', constants={'Shard': 0, 'NShards': 1, 'EmitVectors': True, 'Mode': '"edits"',
-                                                                'MaxLen': 0, 'MaxEdits': 3},
-                                        invariants=['TypeOK'], constraints=['Emit'],
-                                        _tlc={'simulate': 'num=1250', 'depth': 4, 'seed': seed() * 16 + s}),
-                         list(range(16)), 'lexcheck.TextJudge', {}, tlc_kwargs={'timeout': 3000})
+                                                                'MaxLen': 0, 'MaxEdits': 3, 'Stride': 160,
+                                                                'Phase': (seed() * 16 + s) * 37 % 160},
+                                        invariants=['TypeOK'], constraints=['Emit']),
+                         list(range(16)), 'lexcheck.TextJudge', {}, tlc_kwargs={'timeout': 6000})
         agg = merge(res)
-        rep.add_tlc('StoneTok/edits-simulate', agg, {'MaxEdits': 3, 'num': 16 * 1250})
+        rep.add_tlc('StoneTok/edits-2-3', agg, {'MaxEdits': 3, 'Stride': 160, 'runs': 16})
         rep.add_judged(agg)
     # every instance of the StoneSemMC scenario universes (legal and rule-breaking choices at every site, patches incl.)
     import checks_sem
